@@ -3,6 +3,7 @@ package main
 import (
 	"context"
 	"fmt"
+	"io"
 	"log/slog"
 	"os"
 	"sort"
@@ -41,22 +42,36 @@ type captureHandler struct {
 }
 
 type capRec struct {
-	at  time.Time
-	msg string
+	at      time.Time // when the record was stored (after a stall, if any)
+	arrived time.Time // when the handler was entered
+	msg     string
 }
 
 func (h *captureHandler) Enabled(context.Context, slog.Level) bool { return true }
 func (h *captureHandler) Handle(_ context.Context, r slog.Record) error {
+	arrived := time.Now()
 	if h.stall != nil {
 		h.stall(r.Message)
 	}
 	h.mu.Lock()
-	h.records = append(h.records, capRec{time.Now(), r.Message})
+	h.records = append(h.records, capRec{time.Now(), arrived, r.Message})
 	h.mu.Unlock()
 	return nil
 }
 func (h *captureHandler) WithAttrs([]slog.Attr) slog.Handler { return h }
 func (h *captureHandler) WithGroup(string) slog.Handler      { return h }
+
+func (h *captureHandler) countArrivedAfter(msg string, t time.Time) int {
+	h.mu.Lock()
+	defer h.mu.Unlock()
+	n := 0
+	for _, r := range h.records {
+		if r.msg == msg && r.arrived.After(t) {
+			n++
+		}
+	}
+	return n
+}
 
 func (h *captureHandler) countAfter(msg string, t time.Time) int {
 	h.mu.Lock()
@@ -71,6 +86,34 @@ func (h *captureHandler) countAfter(msg string, t time.Time) int {
 }
 
 func ms(s string) time.Duration { return time.Duration(atoi(s)) * time.Millisecond }
+
+// slowWriter is a terminal that takes its time: the first line written >= 900 ms after t0 is held for `hold`
+// (or until shortly after Do has returned); `after` counts writes that complete after Do returned.
+type slowWriter struct {
+	t0         time.Time
+	hold       time.Duration
+	once       sync.Once
+	doReturned *atomic.Int64
+	after      atomic.Int64
+}
+
+func (w *slowWriter) Write(b []byte) (int, error) {
+	if !w.t0.IsZero() && time.Since(w.t0) >= 900*time.Millisecond {
+		w.once.Do(func() {
+			dl := time.Now().Add(w.hold)
+			for time.Now().Before(dl) && w.doReturned.Load() == 0 {
+				time.Sleep(2 * time.Millisecond)
+			}
+			if w.doReturned.Load() != 0 {
+				time.Sleep(20 * time.Millisecond)
+			}
+		})
+	}
+	if r := w.doReturned.Load(); r != 0 && time.Now().UnixNano() > r+int64(10*time.Millisecond) {
+		w.after.Add(1)
+	}
+	return len(b), nil
+}
 
 type rateLog struct {
 	mu    sync.Mutex
@@ -91,7 +134,7 @@ func init() {
 	register("run", func(a []string) string {
 		p := map[string]string{"mode": "constant", "rate": "10/100ms", "dist": "none", "dur": "600", "conc": "10",
 			"maxit": "0", "igndrop": "1", "timeout": "3000", "body": "0", "block": "0", "failevery": "0", "cleanup": "0",
-			"setupfail": "0", "setupcleanups": "2", "cancel": "-1", "stallprogress": "0", "maxfail": "0", "maxfailrate": "0"}
+			"setupfail": "0", "setupcleanups": "2", "cancel": "-1", "stallprogress": "0", "stallprint": "0", "maxfail": "0", "maxfailrate": "0"}
 		for _, kv := range a {
 			if i := strings.IndexByte(kv, '='); i > 0 {
 				p[kv[:i]] = kv[i+1:]
@@ -331,6 +374,15 @@ func init() {
 			}
 		}
 		out := ui.NewOutput(slog.New(ch), ui.NewDiscardPrinter(), false, false)
+		// stallprint=<ms>: the run is interactive and not verbose, so progress goes to the terminal printer; the first
+		// line written >= 900 ms into the run (the first progress tick) is held by the "terminal" for that long
+		var sw *slowWriter
+		verbose := true
+		if st := ms(p["stallprint"]); st > 0 {
+			sw = &slowWriter{hold: st, doReturned: &doReturned}
+			out = ui.NewOutput(slog.New(ch), ui.NewPrinter(sw, io.Discard), true, true)
+			verbose = false
+		}
 		m := metrics.NewInstance(prometheus.NewRegistry(), true, nil)
 		topFn := f1testing.ScenarioFn(scenarioFn)
 		var setupHandle atomic.Pointer[f1testing.T]
@@ -347,7 +399,7 @@ func init() {
 			topFn = f1.CombineScenarios(scenarioFn, second)
 		}
 		scs := scenarios.New().Add(&scenarios.Scenario{Name: "s", ScenarioFn: topFn})
-		opts := options.RunOptions{Scenario: "s", MaxDuration: ms(p["dur"]), Concurrency: conc, Verbose: true,
+		opts := options.RunOptions{Scenario: "s", MaxDuration: ms(p["dur"]), Concurrency: conc, Verbose: verbose,
 			MaxIterations: atou64(p["maxit"]), IgnoreDropped: p["igndrop"] == "1", MaxFailures: atou64(p["maxfail"]),
 			MaxFailuresRate: atoi(p["maxfailrate"])}
 		if p["prerun"] == "1" { // an earlier run of another scenario on the same metrics instance
@@ -369,6 +421,14 @@ func init() {
 			}
 		}
 		settings := envsettings.Settings{}
+		if !verbose { // the scenario log goes to a file: keep it in a scratch directory
+			d, err := os.MkdirTemp("", "f1verif-run")
+			if err != nil {
+				return "harness-tempdir"
+			}
+			defer os.RemoveAll(d)
+			settings.Log.FilePath = d + "/scenario.log"
+		}
 		var gw *fakeGateway
 		if mode, ok := p["pushgw"]; ok { // metrics are pushed to a gateway on the loopback interface
 			gw = newFakeGateway(mode)
@@ -444,6 +504,9 @@ func init() {
 			defer verifhook.Set(nil)
 		}
 		t0 := time.Now()
+		if sw != nil {
+			sw.t0 = t0
+		}
 		type doRes struct {
 			res *run.Result
 			err error
@@ -475,6 +538,15 @@ func init() {
 		time.Sleep(150 * time.Millisecond)
 		startedAfter := started.Load() - startedAtRet
 		progressAfter := ch.countAfter("progress", retAt)
+		// progress lines later than 80 ms after the caller's cancellation (the reporter is bound to the run's context)
+		progressAfterCancel := 0
+		if c := atoi(p["cancel"]); c >= 0 {
+			progressAfterCancel = ch.countArrivedAfter("progress", t0.Add(time.Duration(c+80)*time.Millisecond))
+		}
+		printAfter := 0
+		if sw != nil {
+			printAfter = int(sw.after.Load())
+		}
 		close(unblock)
 		leak := 0
 		if blockID == "0" {
@@ -584,12 +656,12 @@ func init() {
 		return fmt.Sprintf("ret=%d started=%d finished=%d inflight=%d startedAfter=%d progressAfter=%d gapless=%s maxid=%d "+
 			"maxflight=%d shared=%d res=%d/%d/%d truth=%d/%d metrics=%d/%d/%d/%d evals=%d sumrates=%d lastval=%d cadence=%s "+
 			"setups=%d setupFirst=%d tdLast=%d tdOrder=%d failed=%d err=%d leak=%d envBad=%d envAfter=%s stageOrderBad=%d "+
-			"laststart=%d trigdur=%d idchanged=%d cleanupBad=%d cleanupEarly=%d setupHandleInIteration=%d pushed=%s stagestarts=%s",
+			"laststart=%d trigdur=%d idchanged=%d cleanupBad=%d cleanupEarly=%d setupHandleInIteration=%d pushed=%s stagestarts=%s progressAfterCancel=%d printAfter=%d",
 			ret.Milliseconds(), startedAtRet, finishedAtRet, inflightAtRet, startedAfter, progressAfter, boolTok(gapless), mx,
 			maxflight.Load(), shared.Load(), sn.SuccessfulIterationDurations.Count, sn.FailedIterationDurations.Count,
 			sn.DroppedIterationCount, truthS.Load(), truthF.Load(), g.succ, g.fail, g.dropped, g.setupSucc+g.setupFail,
 			evals, sum, lastVal, cadence, setupCount.Load(), setupFirst, tdLast, tdOrder, failed, hasErr, leak,
 			envBad.Load(), envAfter, stageSeqBad.Load(), lastStart, trig.Duration.Milliseconds(),
-			idChanged.Load(), cleanupBad, cleanupEarly.Load(), gotSetupHandle.Load(), pushed, stageStarts)
+			idChanged.Load(), cleanupBad, cleanupEarly.Load(), gotSetupHandle.Load(), pushed, stageStarts, progressAfterCancel, printAfter)
 	})
 }
